@@ -21,7 +21,7 @@ TRUSTED = ['tools/props/c08.py class Ref8 (on top of c07.Ref): independent Pytho
 MARK = '@'
 ESC = '\x1b'
 BLANK = ' \t'
-REVEAL = ['', 'a', 'b', '1', '2', '3', '4']
+REVEAL = ['', 'a', 'b', 'c', '1', '2', '3', '4', '5', '6', '7', '8', '9']
 
 
 def split_lines(text):
@@ -518,26 +518,93 @@ def observe(exe, text, rows, prog):
     return ('ok', s, regs)
 
 
-def expected(text, rows, prog):
-    ref = Ref8(c07.lines_of(text), rows - 1)
-    ref.run8(prog)
-    L = list(ref.L)
+def render(L, r, o, regs):
+    """What the observation protocol shows for a final state: the written file with the marker at the
+    cursor, and each revealed register put after the X of "XY"."""
+    L = list(L)
     if not L:
         out = MARK + '\n'
     else:
-        l = L[ref.r]
-        L[ref.r] = l[:ref.o] + MARK + l[ref.o:]
+        r = min(max(r, 0), len(L) - 1)
+        l = L[r]
+        L[r] = l[:o] + MARK + l[o:]
         out = ''.join(x + '\n' for x in L)
-    regs = {}
+    shown = {}
     for nm in REVEAL:
-        v = ref.regs.get(nm)
+        v = regs.get(nm)
         if v is None or v[0] == '':
-            regs[nm] = RV
+            shown[nm] = RV
         elif v[1]:
-            regs[nm] = RV + ''.join(x + '\n' for x in split_lines(v[0]))
+            shown[nm] = RV + ''.join(x + '\n' for x in split_lines(v[0]))
         else:
-            regs[nm] = ''.join(x + '\n' for x in split_lines('X' + v[0] + 'Y\n'))
+            shown[nm] = ''.join(x + '\n' for x in split_lines('X' + v[0] + 'Y\n'))
+    return out, shown
+
+
+def expected(text, rows, prog):
+    ref = Ref8(c07.lines_of(text), rows - 1)
+    ref.run8(prog)
+    out, regs = render(ref.L, ref.r, ref.o, ref.regs)
     return out, regs, ref
+
+
+# ------------------------------------------------------------------------------------------
+# the extracted Coq interpreter (coq/ViDefs.v exec_prog through the `op` request of ocaml/drv_vi.ml)
+
+def hxs(s):
+    return vlib.hx(s.encode('utf-8'))
+
+
+def regnum(reg):
+    return ord(reg) if reg else 0
+
+
+def model_req(text, rows, prog):
+    w = ['op', str(rows - 1), hxs(text)]
+    for c in prog:
+        k = c[0]
+        if k == 'g':
+            w.append('g:%d' % c[1])
+        elif k == 'm':
+            w.append('m:%d:%d' % (c[1], ord(c[2])) + (':' + hxs(c[3]) if len(c) > 3 and c[3] else ''))
+        elif k == 'op':
+            _, reg, a1, op, a2, mkey, marg, text_ = c
+            w.append('o:%d:%d:%d:%d:%s:%s:%s' % (regnum(reg), a1, ord(op[-1]), a2, 'D' if mkey == 'DBL' else str(ord(mkey)),
+                                                 hxs(marg or ''), hxs(text_)))
+        elif k == 'x':
+            if c[3] in 'pP':
+                w.append('p:%d:%d:%d' % (regnum(c[1]), c[2], 1 if c[3] == 'p' else 0))
+            elif c[3] == 'J':
+                w.append('j:%d' % c[2])
+            else:
+                w.append('x:%d:%d:%d' % (regnum(c[1]), c[2], ord(c[3])))
+        elif k == 'r':
+            w.append('r:%d:%s' % (c[1], hxs(c[2])))
+        elif k == 'ci':
+            w.append('ci:%d:%d:%d:%s' % (regnum(c[1]), c[2], ord(c[3]), hxs(c[4])))
+        elif k == 'i':
+            w.append('i:%d:%s' % (ord(c[1]), hxs(c[2])))
+        else:
+            raise ValueError(k)
+    return ' '.join(w)
+
+
+MODEL_REGS = ['', 'a', 'b', 'c', '1', '2', '3', '4', '5', '6', '7', '8', '9']
+
+
+def model_shown(line):
+    """Parse one answer of the `op` request and render it like an observation; None = out of fuel / error."""
+    w = line.split()
+    if len(w) != 5 + len(MODEL_REGS):
+        return None
+    row, off = int(w[0]), int(w[1])
+    text = vlib.unhx(w[4]).decode('utf-8', 'replace')
+    regs = {}
+    for nm, x in zip(MODEL_REGS, w[5:]):
+        if x != 'x':
+            t, ln = x.split(':')
+            regs[nm] = (vlib.unhx(t).decode('utf-8', 'replace'), ln == '1')
+    return render(c07.lines_of(text), row, off, regs) + ((int(w[2]), int(w[3])),)
 
 
 # ------------------------------------------------------------------------------------------
@@ -625,6 +692,7 @@ def gen_prog(rng, text):
 def check_case(exe, c):
     text, rows, prog = c['text'], c['rows'], c['prog']
     ob = observe(exe, text, rows, prog)
+    c['_obs'] = ob if ob[0] == 'ok' else None
     if ob[0] != 'ok':
         return {'what': ob[1], 'expected': 'file and registers written'}, None
     _, out, regs = ob
@@ -642,6 +710,10 @@ def check_case(exe, c):
             return {'what': 'register %s differs from the reference (revealed by putting it after X of "XY")' % (nm or 'unnamed'),
                     'expected': want_regs[nm], 'observed': regs[nm]}, ref
     return None, ref
+
+
+def clean(c):
+    return {k: v for k, v in c.items() if not k.startswith('_')}
 
 
 def model_regs(model, traffic):
@@ -671,6 +743,34 @@ def run(ctx):
             cases.append({'text': text, 'rows': rng.choice([24, 24, 24, 6]), 'prog': gen_prog(rng, text)})
     res.count('cases', len(cases))
     obs = vlib.pmap(lambda c: check_case(exe, c), cases)
+    # the Coq interpreter on every case: text, cursor and registers against the implementation
+    if model:
+        oreqs = [model_req(c['text'], c['rows'], c['prog']) for c in cases]
+        rc, mout, err = vlib.run_lines(model, oreqs, timeout=3000)
+        if rc != 0 or len(mout) != len(oreqs):
+            res.disagree({'what': 'model driver failed on op requests: rc=%d, %d answers for %d requests' % (rc, len(mout), len(oreqs)), 'stderr': err[-500:]})
+        else:
+            ndis = 0
+            for c, line in zip(cases, mout):
+                ob = c.get('_obs')
+                if ob is None:
+                    continue
+                sh = model_shown(line)
+                res.count('model answers' if sh else 'model out of fuel')
+                if sh is None:
+                    res.disagree({'what': 'the Coq interpreter gave no state (%s)' % line[:40], 'input': clean(c)})
+                    continue
+                m_out, m_regs, _ = sh
+                if m_out != ob[1] or any(m_regs[nm] != ob[2][nm] for nm in REVEAL):
+                    ndis += 1
+                    if ndis <= 5:
+                        bad = [nm or 'unnamed' for nm in REVEAL if m_regs[nm] != ob[2][nm]]
+                        res.disagree({'what': 'Coq interpreter (ViDefs.exec_prog) and implementation differ in ' +
+                                      ('text/cursor' if m_out != ob[1] else 'registers ' + ','.join(bad)),
+                                      'input': dict(clean(c), keys=keys_of(c['prog']).decode('utf-8', 'replace')),
+                                      'implementation': {'out': ob[1], 'regs': {k: v for k, v in ob[2].items() if v != RV}},
+                                      'model': {'out': m_out, 'regs': {k: v for k, v in m_regs.items() if v != RV}}})
+            res.extra['model_vs_implementation_differences'] = ndis
     # register model: replay the traffic of every case
     reqs, idx = [], []
     for i, (c, (bad, ref)) in enumerate(zip(cases, obs)):
